@@ -1,5 +1,6 @@
 From GV Require Import Common.Outcome C19.Model C19.Spec C19.Proofs.
 From GV Require Import C19.Diag C19.DiagSpec C19.DiagProofs.
+From GV Require Import C19.FedModel C19.FedSpec C19.FedProofs.
 
 Theorem C19_feed_chunking : feed_chunking_stmt.
 Proof. exact feed_chunking. Qed.
@@ -88,3 +89,23 @@ Print Assumptions C19_spans_on_line_spec.
 Theorem C19_rows_spec_determinate : rows_spec_determinate_stmt.
 Proof. exact rows_spec_determinate. Qed.
 Print Assumptions C19_rows_spec_determinate.
+
+Theorem C19_line_col_requires_fed_cache : line_col_requires_fed_cache_stmt.
+Proof. exact line_col_requires_fed_cache. Qed.
+Print Assumptions C19_line_col_requires_fed_cache.
+
+Theorem C19_line_col_total_on_fed_cache : line_col_total_on_fed_cache_stmt.
+Proof. exact line_col_total_on_fed_cache. Qed.
+Print Assumptions C19_line_col_total_on_fed_cache.
+
+Theorem C19_lexer_line_col_unfed_panics : lexer_line_col_unfed_panics_stmt.
+Proof. exact lexer_line_col_unfed_panics. Qed.
+Print Assumptions C19_lexer_line_col_unfed_panics.
+
+Theorem C19_lexer_line_col_total_on_fed_cache : lexer_line_col_total_on_fed_cache_stmt.
+Proof. exact lexer_line_col_total_on_fed_cache. Qed.
+Print Assumptions C19_lexer_line_col_total_on_fed_cache.
+
+Theorem C19_lexer_line_col_empty_cache_iff : lexer_line_col_empty_cache_iff_stmt.
+Proof. exact lexer_line_col_empty_cache_iff. Qed.
+Print Assumptions C19_lexer_line_col_empty_cache_iff.
